@@ -83,6 +83,59 @@ def holds(atoms_: list[tuple[str, bool]], text: str, pol: bool = True) -> bool:
     return (text, pol) in atoms_
 
 
+def fresh_container(fn: ast.AST, e: ast.AST | None, depth: int = 0) -> bool:
+    """True when ``e`` certainly denotes a container created here (so storing into it cannot
+    reach an object the caller owns): a display, a comprehension, dict()/list()/set()/deque()/
+    sorted()/tuple() calls, ``x.copy()``, a conditional expression whose arms both are, or a
+    local (not a parameter) all of whose assignments are."""
+    if e is None:
+        return False
+    if isinstance(e, (ast.Dict, ast.List, ast.Set, ast.ListComp, ast.DictComp, ast.SetComp)):
+        return True
+    if isinstance(e, ast.Call):
+        f = callee(e)
+        if f in ("dict", "list", "set", "deque", "sorted", "tuple", "collections.deque", "OrderedDict", "copy.copy", "copy.deepcopy"):
+            return True
+        return isinstance(e.func, ast.Attribute) and e.func.attr == "copy" and not e.args
+    if isinstance(e, ast.IfExp):
+        return fresh_container(fn, e.body, depth) and fresh_container(fn, e.orelse, depth)
+    if isinstance(e, ast.Name) and depth < 4:
+        params = {a.arg for a in fn.args.posonlyargs + fn.args.args + fn.args.kwonlyargs}  # type: ignore[attr-defined]
+        for extra in (fn.args.vararg, fn.args.kwarg):  # type: ignore[attr-defined]
+            if extra is not None:
+                params.add(extra.arg)
+        if e.id in params:
+            return False
+        vals = [a.value for a in ast.walk(fn) if isinstance(a, (ast.Assign, ast.AnnAssign)) and a.value is not None and any(isinstance(t_, ast.Name) and t_.id == e.id for t_ in (a.targets if isinstance(a, ast.Assign) else [a.target]))]
+        return bool(vals) and all(fresh_container(fn, v, depth + 1) for v in vals)
+    return False
+
+
+def merge_order(e: ast.AST) -> list[str] | None:
+    """Sources of a dict merge expression in order of increasing precedence (a later source
+    overrides an earlier one): `dict(a, **b)`, `{**a, **b}`, `a | b`, `dict(a); .update(b)`
+    spelled as one expression, `ChainMap(b, a)` (first wins) all give ['a', 'b'].  None when
+    the expression is not such a merge."""
+    if isinstance(e, ast.Dict) and e.keys and all(k is None for k in e.keys):
+        out: list[str] = []
+        for v in e.values:
+            sub = merge_order(v)
+            out += sub if sub is not None else [ast.unparse(v)]
+        return out
+    if isinstance(e, ast.BinOp) and isinstance(e.op, ast.BitOr):
+        l_, r_ = merge_order(e.left), merge_order(e.right)
+        return (l_ if l_ is not None else [ast.unparse(e.left)]) + (r_ if r_ is not None else [ast.unparse(e.right)])
+    if isinstance(e, ast.Call) and callee(e) == "dict" and len(e.args) <= 1 and all(k.arg is None for k in e.keywords) and (e.args or e.keywords):
+        out = []
+        for v in list(e.args) + [k.value for k in e.keywords]:
+            sub = merge_order(v)
+            out += sub if sub is not None else [ast.unparse(v)]
+        return out
+    if isinstance(e, ast.Call) and callee(e).split(".")[-1] == "ChainMap" and e.args and not e.keywords:
+        return [ast.unparse(a) for a in reversed(e.args)]
+    return None
+
+
 def text_parts(e: ast.AST) -> list[str]:
     """'a' + x, f'a{x}' and 'a{}'.format(x) build the same text: the literal pieces (as reprs)
     and the interpolated expressions (unparsed), in order.  Adjacent literals are merged."""
